@@ -152,6 +152,19 @@ CLAIMED = {
    note=TRUST + "Exactness is claimed for names with at most four accidentals (beyond that the constructors' > 6 re-spelling moves "
         "octaves: outside the property's stated domain). Known finding C11-augment-diminish-mixed-name listed with a matcher.",
    design="§4 C11"),
+ "C14": dict(
+   text="Lean (model of Track over the IEEE-exact bar): addNotes_items - an accepted item appends exactly one entry with its value "
+        "and content, a refused one leaves the music unchanged; history_items - for item lists of ANY length, iterating the "
+        "track yields exactly the accepted items in order (induction); new_bar_inherits (a bar is opened only after a full bar "
+        "and copies its key and meter); gate_rejects / gate_in_range / gate_accepts_rest with canPlay_spec; refusal clause: full "
+        "statement + kernel counterexample = known finding C14-refused-add-opens-bar; composition: addTrack_selects, "
+        "addNote_selection. Tie A: Track.add_notes statements, instrument ranges, guitar limit, Composition selection; Tie B: all "
+        "add/+/add_bar histories of depth <=3/4 x instruments, out-of-range calls on empty / exactly-full tracks, random "
+        "histories up to 60 steps, from_chords on nested lists with rests, composition scripts.",
+   note=TRUST + "from_chords (recursive splitting) is tied by the correspondence and the oracle only. Exactness of the accept decision is "
+        "C13's business. Known finding C14-refused-add-opens-bar listed with a matcher; two defects repaired by fix: commits "
+        "(ae0783e rest with an instrument, 79bbf45 from_chords rests).",
+   design="§4 C14"),
  "C04": dict(
    text="Whole-table kernel evaluation (decide +kernel) of everything the statement says about each of the 30 keys, the 15 "
         "relative couples, the key objects and signature<->key inversion; unbounded theorems for rejections (any string, any "
